@@ -282,3 +282,26 @@ Theorem C19_after_close_inert : forall ap closef calls post s,
   snd (arun_ops ap closef s (calls_of calls ++ AoClose :: post)) = Some (closef (acalls ap s calls)).
 Proof. exact after_close_inert. Qed.
 Print Assumptions C19_after_close_inert.
+
+(* round 7 - what was being stored are points with REAL-WORLD coordinates (scale-aware records are re-quantised to the destination's grid before they
+   are written): the header rewritten in place at close is the first header with the statistics replaced, so the scales / offsets and the fields
+   that lay out the point block have, at every byte of the rewrite, the value they had when the first point was stored; a crash image inside the
+   rewrite announces the stored raw coordinates under the scaling they were written in. (hb1 of C19_crash_safe / C19_crash_safe_append is
+   enc_header of exactly this with_stats header.) The implementation is held to it by the harness: bytes 24..26, 94..100, 104..107, 131..179 of
+   the first header vs the closed file, and x / y / z of every crash image of sessions fed with differently scaled records. *)
+From LasV Require Import Proofs.RewriteScalingProofs.
+Theorem C19_rewrite_keeps_scaling : forall h0 h' i,
+  aint (with_stats h0 (stats_of_header h')) (axis_name "scales" i) = aint h0 (axis_name "scales" i) /\
+  aint (with_stats h0 (stats_of_header h')) (axis_name "offsets" i) = aint h0 (axis_name "offsets" i).
+Proof. exact rewrite_keeps_scaling. Qed.
+Print Assumptions C19_rewrite_keeps_scaling.
+
+Theorem C19_rewrite_keeps_layout : forall h0 h' n, In n interpretation_fields ->
+  aint (with_stats h0 (stats_of_header h')) n = aint h0 n.
+Proof. exact rewrite_keeps_layout. Qed.
+Print Assumptions C19_rewrite_keeps_layout.
+
+(* ... while the statistics are the new ones (the two theorems above are not about a rewrite that changes nothing) *)
+Theorem C19_rewrite_sets_count : forall h0 h', aint (with_stats h0 (stats_of_header h')) "point_count" = aint h' "point_count".
+Proof. exact rewrite_sets_count. Qed.
+Print Assumptions C19_rewrite_sets_count.
